@@ -2,6 +2,7 @@
 import PsutilModel.Model.C17
 import PsutilModel.Model.C17Ext
 import PsutilModel.Model.C17Py
+import PsutilModel.Model.C17R3
 import PsutilModel.Generated.C17
 namespace Psutil.C17
 
@@ -131,6 +132,10 @@ def wcfg : WCfg :=
     minSeps := Gen.C17.nifaMinSeps
     padText := Gen.C17.nifaPadText
     sortKeyIdx := Gen.C17.nifaSortKeyIdx }
+
+/-! ### round 3 -/
+
+def nfail : NFail := { ifaddrInit := Gen.C17.nifIfaddrInit }
 
 /-- the C table restricted to the macros the platform header defines, with their bits -/
 def iffLinux : List (Nat × String) :=
